@@ -29,13 +29,14 @@ RULE = (
     ' Round 8: negative DELAYS (must convert).'
 )
 ASSUMPTIONS = ["C01's generator and the gap guard", "TimingData / NoteData as readers (C07, C14)"]
-MONITORS = ["result_content", "timing_equal", "notes_equal", "unmodified", "no_sharing", "second_call_same", "reload", "reload_autodetect", "negative_refused", "negative_refused_after_an_earlier_conversion"]
+MONITORS = ["result_content", "timing_equal", "notes_equal", "unmodified", "no_sharing", "second_call_same", "reload", "reload_autodetect", "negative_refused", "negative_refused_after_an_earlier_conversion", "template_edited_between_calls"]
 REQUIRED = ["template_none", "template_blank", "template_sparse", "template_with_charts", "template_empty",
             "chart_template_empty", "chart_template_sparse", "animations_alias", "ssc_only_key_in_source", "version_key_in_source",
             "negative_bpm_or_stop", "source_with_charts", "delays_or_warps", "zero_length_stop", "chart_template_empty_timing_keys",
             "chart_template_spells_its_notes_NOTES2", "negative_row_followed_by_a_row_for_the_same_beat", "template_with_notes2_chart",
             "source_is_an_instance_of_a_subclass_of_SMSimfile", "negative_value_that_is_minus_zero_as_a_float",
-            "source_chart_with_extra_components", "negative_delay_in_a_source_that_must_convert"]
+            "source_chart_with_extra_components", "negative_delay_in_a_source_that_must_convert",
+            "chart_template_with_an_offset_and_no_timing_property"]
 
 SSC_ONLY = ["VERSION", "ORIGIN", "LABELS", "MUSICLENGTH", "LASTSECONDHINT", "PREVIEWVID", "JACKET", "CDIMAGE", "DISCIMAGE", "PREVIEW",
             "COMBOS", "SPEEDS", "SCROLLS", "FAKES", "WARPS", "TIMESIGNATURES"]
@@ -107,7 +108,7 @@ def cases(ctx):
         case["ops"] += timing_ops(rng, negative) + extra
         case["negative"] = negative
         case["template"] = rng.choice(["none", "none", "blank", "sparse", "with_charts", "empty", "with_notes2_chart"])
-        case["chart_template"] = rng.choice(["none", "none", "blank", "sparse", "empty", "timing", "empty_timing_keys", "notes2"])
+        case["chart_template"] = rng.choice(["none", "none", "blank", "sparse", "empty", "timing", "empty_timing_keys", "notes2", "offset_only"])
         case["seed"] = rng.getrandbits(32)
         yield case
 
@@ -171,6 +172,11 @@ def make_templates(case):
         ct = SSCChart()
         ct["CHARTNAME"] = "tpl name"
         ct["CREDIT"] = "tpl credit"
+    elif c_ == "offset_only":
+        # an OFFSET of its own, and none of the eleven timing properties: not a chart with split timing
+        ct = SSCChart.blank()
+        ct["OFFSET"] = "9.999"
+        ct.move_to_end("NOTES")
     elif c_ == "notes2":
         ct = SSCChart()
         ct["CHARTNAME"] = "tpl"
@@ -235,6 +241,8 @@ def check(ctx, case):
         ctx.feat("zero_length_stop")
     if case["chart_template"] == "empty_timing_keys":
         ctx.feat("chart_template_empty_timing_keys")
+    if case["chart_template"] == "offset_only" and sm.charts:
+        ctx.feat("chart_template_with_an_offset_and_no_timing_property")
     if case["chart_template"] == "notes2" and sm.charts:
         ctx.feat("chart_template_spells_its_notes_NOTES2")
     if case["negative"]:
@@ -355,6 +363,18 @@ def check(ctx, case):
     ctx.mon("second_call_same")
     res2 = sm_to_ssc(sm, **kwargs)
     ctx.expect(ssc_state(res2) == first_state, "second-call:differs-from-first", first=repr(first_state)[:300], second=repr(ssc_state(res2))[:300])
+    if ct is not None and len(ct) and sm.charts:
+        # a value of the (re-used) chart template is changed in place: the next conversion uses the template as it is now
+        ctx.mon("template_edited_between_calls")
+        k0 = next(k for k in ct if k not in ("NOTES", "NOTES2") and k not in M.SIX) if any(k not in ("NOTES", "NOTES2") and k not in M.SIX for k in ct) else None
+        if k0 is not None:
+            old_v = ct[k0]
+            ct[k0] = "edited between two calls"
+            res3 = sm_to_ssc(sm, **kwargs)
+            ctx.expect(all(c.get(k0) == "edited between two calls" for c in res3.charts[n_t:]), "third-call:uses-a-stale-copy-of-the-chart-template",
+                       template_key=k0, got=[c.get(k0) for c in res3.charts[n_t:]][:3])
+            ct[k0] = old_v
+            ct_state0 = list(ct.items())
     # mutate the result: nothing else may change
     res["MUTATED"] = "yes"
     for c in res.charts:
